@@ -312,13 +312,46 @@ class Engine:
         return st.heap[name]
 
     def hget(self, st, name, ref):
-        return z3.Select(self.harr(st, name), ref)
+        """read-over-write: skip stores at provably different indices, return the value of a store at the same index"""
+        arr = self.harr(st, name)
+        if not z3.is_expr(ref):
+            return z3.Select(arr, ref)
+        cur = arr
+        depth = 0
+        while depth < 16 and z3.is_app(cur) and cur.decl().kind() == z3.Z3_OP_STORE:
+            base, idx, val = cur.arg(0), cur.arg(1), cur.arg(2)
+            if z3.eq(idx, ref):
+                return val
+            d = z3.simplify(idx != ref)
+            if z3.is_true(d):
+                cur = base
+                depth += 1
+                continue
+            break
+        return z3.Select(cur, ref)
 
     def hset(self, st, name, ref, val):
         if st.spec:
             raise SpecError("heap write in spec mode")
         st.heap[name] = z3.Store(self.harr(st, name), ref, val)
         st.writes.append((name, ref))
+
+    def wf_assume(self, st, private=()):
+        """language-level heap invariants (E11): no cell of the declared reference-holding attributes points past the
+        allocation frontier; freshly built **kwargs dicts are referenced by no such cell"""
+        a = self.harr(st, "$alloc")
+        r = z3.Int("r!wf")
+        for comp in SP.WF_FIELDS:
+            arr = self.harr(st, comp)
+            cell = z3.Select(arr, r)
+            st.assume(z3.ForAll([r], z3.Implies(Val.is_RefV(cell), Val.rv(cell) <= a), patterns=[cell]))
+            for p in private:
+                st.assume(z3.ForAll([r], cell != Val.RefV(p), patterns=[cell]))
+        if "CTX" in GHOST_SORTS:
+            cell = z3.Select(self.harr(st, "#CTX"), r)
+            st.assume(z3.ForAll([r], z3.Implies(Val.is_RefV(cell), Val.rv(cell) <= a), patterns=[cell]))
+            for p in private:
+                st.assume(z3.ForAll([r], cell != Val.RefV(p), patterns=[cell]))
 
     def alloc(self, st, clsname=None):
         a = self.harr(st, "$alloc")
@@ -362,6 +395,14 @@ class Engine:
         if hint in (None, "Any", "val"):
             return SV("val", v)
         if hint.startswith("Opt["):
+            # declared optional type: the value is None or a well-typed inner value
+            inner = hint[4:-1]
+            s2 = State()
+            s2.heap = st.heap
+            s2.heap0 = st.heap0
+            self.from_val(s2, v, inner)
+            st.assume(z3.Or(v == NoneV, z3.And(*s2.pc) if s2.pc else z3.BoolVal(True)))
+            st.heap = s2.heap
             return SV("val", v, h=hint)
         if hint == "int":
             st.assume(Val.is_IntV(v))
